@@ -70,7 +70,8 @@ def gen_plan(seed, tier="quick"):
                                          allow_cancel=False, parallel=0.08,
                                          # (cancellation on the gateway whose reports carry sequence numbers: a
                                          # cancelled caller's late report cannot reach anybody else there)
-                                         cancel_sends=(driver == "tridonic"), start_on_event=0.2,
+                                         # (and on hasseb, whose reports carry none: see hasseb_taint below)
+                                         cancel_sends=(driver in ("tridonic", "hasseb")), start_on_event=0.2,
                                          cats=_cats(r, driver)),
             "traffic": [], "deadline_s": 600}
     if driver == "tridonic" and (seed // 6) % 60 == 17:
@@ -249,6 +250,27 @@ def judge(rr):
     for t in plan.get("traffic", []):
         if t.get("answer"):
             all_values.add(t["answer"][1])
+    if drv == "hasseb":
+        # hasseb reports say nothing about the command they belong to.  The report of a command whose
+        # caller has given up (cancelled, timed out) is left over: if it reaches the host before the next
+        # command is written, the driver has to drop it (and does); if it arrives after that write nothing
+        # in the protocol tells it from the next command's own report - from there on answers are
+        # shifted, whatever the driver does.  Those runs are reported under one signature of their own.
+        gone = {u for u, rec in rr.ops.items() if rec.cancel_requested or rec.status in ("cancelled", "timeout")}
+        sends = rr.dev.sends
+        tainted = any(x.get("rep_arrival_us") is not None and x["unit"] in gone
+                      and any(y["idx"] > x["idx"] and y["t_us"] <= x["rep_arrival_us"] for y in sends)
+                      for x in sends)
+        if gone:
+            rr.world.probe("hasseb-caller-gave-up")
+        if tainted:
+            rr.world.probe("hasseb-leftover-report-after-next-write")
+            V0 = V
+
+            def V(clause, detail, site=None):                 # noqa: F811
+                if clause in ("answer-of-other-command", "answer-lost", "wrong-answer", "framing-error-not-reported"):
+                    clause, site = "answer-of-other-command", "leftover-report-arrived-after-next-write"
+                V0(clause, detail, site)
     late_by = {}
     for s in rr.dev.sends:
         if "outcome" in s:
